@@ -181,7 +181,13 @@ def validate_traces(ctx: Ctx, spec: str, cfg: str, traces: list[dict], name: str
                 accepted += 1
             else:
                 cl = [c for (l, c) in mism.get(tid, []) if l >= reached] or [c for (_, c) in mism.get(tid, [])]
-                rejected[tid] = {"at": reached, "need": need, "clauses": sorted(set(cl))}
+                # most recent first: the last mismatch printed at the furthest position is the deciding one
+                seen, ordered = set(), []
+                for c in reversed(cl):
+                    if c not in seen:
+                        seen.add(c)
+                        ordered.append(c)
+                rejected[tid] = {"at": reached, "need": need, "clauses": ordered}
     return {"accepted": accepted, "rejected": rejected, "states": states, "generated": generated, "wall": wall}
 
 
@@ -273,3 +279,103 @@ def finish(ctx: Ctx, level: str, coverage: dict, assumptions: list[str]) -> int:
     EVID.mkdir(exist_ok=True)
     (EVID / f"{ctx.pid}.json").write_text(json.dumps(ev, indent=1, default=str))
     return rc
+
+
+# --------------------------------------------------------------------------- TLA+ value parsing (simulate / dump files)
+
+def parse_tla(s: str):
+    """ints, strings, TRUE/FALSE, <<tuples>>, {sets}, [records |-> ...], (functions a :> b @@ ...) -> python values"""
+    s = s.strip()
+    pos = 0
+
+    def ws():
+        nonlocal pos
+        while pos < len(s) and s[pos] in " \n\t":
+            pos += 1
+
+    def val():
+        nonlocal pos
+        ws()
+        if s.startswith("<<", pos):
+            pos += 2
+            items = []
+            ws()
+            while not s.startswith(">>", pos):
+                items.append(val())
+                ws()
+                if s[pos] == ",":
+                    pos += 1
+                ws()
+            pos += 2
+            return items
+        if s[pos] == "{":
+            pos += 1
+            items = []
+            ws()
+            while s[pos] != "}":
+                items.append(val())
+                ws()
+                if s[pos] == ",":
+                    pos += 1
+                ws()
+            pos += 1
+            return set(items) if all(isinstance(x, (int, str)) for x in items) else items
+        if s[pos] == "[":
+            pos += 1
+            rec = {}
+            ws()
+            while s[pos] != "]":
+                m = re.match(r"(\w+)\s*\|->", s[pos:])
+                if not m:
+                    raise ValueError(f"bad record at {s[pos:pos + 30]!r}")
+                pos += m.end()
+                rec[m.group(1)] = val()
+                ws()
+                if s[pos] == ",":
+                    pos += 1
+                ws()
+            pos += 1
+            return rec
+        if s[pos] == "(":
+            pos += 1
+            fn = {}
+            ws()
+            while s[pos] != ")":
+                k = val()
+                ws()
+                assert s.startswith(":>", pos), s[pos:pos + 20]
+                pos += 2
+                fn[k if not isinstance(k, list) else tuple(k)] = val()
+                ws()
+                if s.startswith("@@", pos):
+                    pos += 2
+                ws()
+            pos += 1
+            return fn
+        if s[pos] == '"':
+            e = s.index('"', pos + 1)
+            v = s[pos + 1:e]
+            pos = e + 1
+            return v
+        m = re.match(r"-?\d+", s[pos:])
+        if m:
+            pos += m.end()
+            return int(m.group())
+        m = re.match(r"[A-Za-z_]\w*", s[pos:])
+        pos += m.end()
+        return {"TRUE": True, "FALSE": False}.get(m.group(), m.group())
+    return val()
+
+
+def sim_states(path, only: set | None = None) -> list[dict]:
+    """states of one `tlc -simulate file=` behaviour: [{var: value}] (restricted to the variables in `only`)"""
+    text = Path(path).read_text()
+    states = []
+    for block in re.split(r"^STATE_\d+ ==\s*$", text, flags=re.M)[1:]:
+        block = re.split(r"^\\\*", block, flags=re.M)[0]
+        st = {}
+        for m in re.finditer(r"^/\\ (\w+) = (.*?)(?=^/\\ |\Z)", block, flags=re.M | re.S):
+            if only is None or m.group(1) in only:
+                st[m.group(1)] = parse_tla(m.group(2))
+        states.append(st)
+    return states
